@@ -576,4 +576,31 @@ theorem force_dfsG_cost (sem : Sem τ ρ ε σ) (hmono : SemMono sem) (hp : Iter
   rw [show m'.iter - m.iter = cost by omega]
   exact hf n hn
 
+/-- result of `Force` for a signal that reaches the root -/
+def toRes : SigG ε → Res ε
+  | .found => .yes
+  | .exhausted _ => .no
+  | .raised e _ => .error e
+  | .illScoped => .no
+
+/-- **force_dfsG at the root**: forcing a promise on the empty stack ends with the result the
+    reference search signals, in the state the reference search ends in -/
+theorem force_dfsG_root (sem : Sem τ ρ ε σ) (hmono : SemMono sem) (tf k : Nat) (p : P τ ρ ε)
+    (m m' : M σ) (sig : SigG ε) (h : dfsP sem tf k p [] m = some (sig, m')) (hsig : sig ≠ .illScoped) :
+    ∃ cost, ∀ n, tf ≤ n → 0 < n → force sem none (n + cost) [p] m = some (toRes sig, m') := by
+  obtain ⟨cost, hf⟩ := force_dfsG sem hmono tf k p [] m m' sig h hsig [] rfl List.nodup_nil
+  have hin := (sigIn_both sem tf k).1 _ _ _ _ _ h
+  refine ⟨cost, fun n hn hpos => ?_⟩
+  rw [hf n hn]
+  obtain ⟨n, rfl⟩ : ∃ n', n = n' + 1 := ⟨n - 1, by omega⟩
+  cases sig with
+  | found => rfl
+  | illScoped => exact absurd rfl hsig
+  | exhausted co => cases co with
+    | none => rfl
+    | some c => cases hin
+  | raised e co => cases co with
+    | none => rfl
+    | some c => cases hin
+
 end PrologVerif.ForceDFSG
